@@ -73,6 +73,7 @@ fn work_chunk(types: &[Ty]) -> Value {
 fn main() {
     let mut run = vcommon::Run::from_args("C03", "exploration");
     vcommon::install_quiet_panic_hook();
+    tune_allocator();
 
     if let Some(d) = run.replay_detail() {
         let ty = Ty::from_json(&d["type"]).unwrap_or_else(|e| vcommon::machinery(&format!("bad replay type: {e}")));
